@@ -2,7 +2,7 @@
 //! formats), loaded, saved and loaded again; every call is logged (projected state before the call,
 //! produced bytes, projected state after loading) for Trace_Lifecycle.
 use lopdf::xref::XrefType;
-use lopdf::Document;
+use lopdf::{Document, IncrementalDocument, Object};
 use lopdf_conform::{gen, guard::guarded, io::*, rng::Rng, wire::*};
 use serde_json::{json, Value};
 
@@ -37,11 +37,15 @@ fn record(args: &[String]) {
             if fmt == "table" { XrefType::CrossReferenceTable } else { XrefType::CrossReferenceStream };
         out.put(&json!({"ev": "Reset", "case": case}));
         let mut cur = doc;
+        let mut first_bytes: Option<Vec<u8>> = None;
         for cycle in 1..=2 {
             let before = doc_to_tla(&cur);
             match save(&mut cur) {
                 Ok(bytes) => {
                     out.put(&json!({"ev": "Save", "case": case, "cycle": cycle, "fmt": fmt, "doc": before, "res": "ok", "bytes": bytes_to_json(&bytes)}));
+                    if cycle == 1 {
+                        first_bytes = Some(bytes.clone());
+                    }
                     match load(&bytes) {
                         Ok(d) => {
                             out.put(&json!({"ev": "Load", "case": case, "cycle": cycle, "res": "ok", "doc": doc_to_tla(&d)}));
@@ -56,6 +60,33 @@ fn record(args: &[String]) {
                 Err(e) => {
                     out.put(&json!({"ev": "Save", "case": case, "cycle": cycle, "fmt": fmt, "doc": before, "res": e, "bytes": Value::Array(vec![])}));
                     break;
+                }
+            }
+        }
+        // every third case: a document loaded from a file with TWO revisions (made by an incremental update of
+        // the first saved file) is saved plainly and loaded again
+        if case % 3 == 2 {
+            if let Some(b0) = first_bytes {
+                if let Ok(Ok(mut inc)) = guarded(|| IncrementalDocument::load_from(&b0[..])) {
+                    inc.new_document.add_object(Object::Integer(case as i64));
+                    if let Some(id) = inc.get_prev_documents().objects.keys().next().copied() {
+                        let _ = inc.opt_clone_object_to_new_document(id);
+                    }
+                    let mut two = Vec::new();
+                    if matches!(guarded(|| inc.save_to(&mut two)), Ok(Ok(()))) {
+                        out.put(&json!({"ev": "File", "case": case, "bytes": bytes_to_json(&two), "knobs": {"revisions": 2}}));
+                        if let Ok(mut d) = load(&two) {
+                            out.put(&json!({"ev": "Load", "case": case, "cycle": 3, "res": "ok", "doc": doc_to_tla(&d)}));
+                            let before = doc_to_tla(&d);
+                            if let Ok(bytes) = save(&mut d) {
+                                out.put(&json!({"ev": "Save", "case": case, "cycle": 3, "fmt": fmt, "doc": before, "res": "ok", "bytes": bytes_to_json(&bytes)}));
+                                match load(&bytes) {
+                                    Ok(d2) => out.put(&json!({"ev": "Load", "case": case, "cycle": 3, "res": "ok", "doc": doc_to_tla(&d2)})),
+                                    Err(e) => out.put(&json!({"ev": "Load", "case": case, "cycle": 3, "res": e, "doc": doc_to_tla(&Document::new())})),
+                                }
+                            }
+                        }
+                    }
                 }
             }
         }
